@@ -466,7 +466,10 @@ class StdioClient:
         try:
             # Close outgoing stream to signal stdin_writer to exit
             if self._outgoing_send:
-                await self._outgoing_send.aclose()
+                # Shielded: when the context is left because an enclosing cancel
+                # scope was cancelled, this checkpoint must not skip the shutdown
+                with anyio.CancelScope(shield=True):
+                    await self._outgoing_send.aclose()
 
             if self.tg:
                 # Cancel all tasks
@@ -515,11 +518,20 @@ class StdioClient:
                         else:
                             logger.error(f"Task error during shutdown: {e}")
 
-            if self.process and self.process.returncode is None:
-                await self._terminate_process()
-
         except Exception as e:
             logger.debug(f"Error during stdio client shutdown: {e}")
+
+        finally:
+            # Always terminate and reap the child - also when a cancellation is
+            # propagating (joining the task group re-raises it). The sequence is
+            # bounded by the two grace periods, so it is shielded from the
+            # enclosing cancel scope; otherwise the child would be left running
+            try:
+                if self.process and self.process.returncode is None:
+                    with anyio.CancelScope(shield=True):
+                        await self._terminate_process()
+            except Exception as e:
+                logger.debug(f"Error during stdio client shutdown: {e}")
 
         return False
 
